@@ -3,13 +3,69 @@
 from vf.checks import parserlevel as PL
 
 
-def drive(items, cfg, monitor, see_tokens=True, cpu_s=4.0):
-    """monitor(R, key, doc, tokens) appends violations / counters to R."""
+def fix_internal_parses(job, doc, on_parse):
+    """Run the real `fix` on doc and return [(source text, tokens)] of every parse the application
+    performed on an *intermediate* document (the re-parses of partially fixed text: the place where fix
+    mode depends on the parser-level properties, and which no unit test observes)."""
+    from vf import app, reclog
+
+    reclog.install_wrappers()
+    sb = job.setdefault("_sandbox", None) or app.Sandbox(job["work"])
+    job["_sandbox"] = sb
+    sb.clear_files()
+    p = sb.write_bytes("fx.md", doc.encode("utf-8"))
+    reclog.configure({})
+    seen = [0]
+
+    def cb(text, toks):
+        if text is not None and text != doc:
+            seen[0] += 1
+            try:
+                on_parse(text, toks)  # record-and-return: a monitor never raises into the run it observes
+            except Exception:
+                pass
+
+    reclog.ON_PARSE = cb
+    try:
+        o = app.fix_files([p])
+    finally:
+        reclog.ON_PARSE = None
+        reclog.configure({})
+    if o.watchdog:
+        return None
+    return seen[0]
+
+
+def drive(items, cfg, monitor, see_tokens=True, cpu_s=4.0, job=None):
+    """monitor(R, key, doc, tokens) appends violations / counters to R.
+    Items 'FX:<universe key>' apply the same monitor to the internal parses of a fix run on that document."""
     from vf import pm
 
     tok = pm.make_tokenizer(cfg)
     R = PL.Result()
     for it in items:
+        if isinstance(it, str) and it.startswith("FX:"):
+            doc = PL.U.case_doc(it[3:])
+            R.evals += 1
+            before = len(R.viol)
+
+            def on_parse(text, toks, _it=it):
+                R.count("internal_parses_monitored")
+                monitor(R, pm, _it, text, toks)
+
+            n_seen = fix_internal_parses(job, doc, on_parse) if doc.strip() else 0
+            if n_seen is None:
+                del R.viol[before:]
+                R.skip("fix-watchdog")
+                continue
+            R.count("fix_runs_observed")
+            # all violations of one fix run are one case: merge their atoms under the FX key
+            if len(R.viol) > before:
+                atoms = sorted({"fix-internal:" + a for v in R.viol[before:] for a in str(v[1]).split(";")})
+                detail = {"doc": doc, "intermediate": R.viol[before][2]}
+                del R.viol[before:]
+                R.viol.append([it, ";".join(atoms), detail])
+            continue
         key, doc = PL.item_doc(it)
         kind, val, _ = pm.parse(tok, doc, cpu_s=cpu_s)
         R.evals += 1
